@@ -5,7 +5,7 @@ export CARGO_NET_OFFLINE=true
 cd $W || exit 1
 git checkout -q -- . && git apply $d/patch.diff || exit 2
 mkdir -p target
-timeout 14400 cargo test --workspace --offline --no-fail-fast > $d/confirm_suite.log 2>&1
+timeout 14400 cargo test --workspace --offline --no-fail-fast --lib --bins --tests > $d/confirm_suite.log 2>&1
 echo "## $P/$n suite-only rerun" >> /var/tmp/vt/confirm-$P.log
 grep -E "^test result" $d/confirm_suite.log | sort | uniq -c >> /var/tmp/vt/confirm-$P.log
 git checkout -q -- .
